@@ -465,6 +465,11 @@ impl<T> Shared<T> {
     self.unregister(Role::Recv, id);
   }
 
+  /// See [`cancel_wait`](Self::cancel_wait).
+  pub(crate) fn cancel_recv(&self, id: u64) {
+    self.cancel_wait(Role::Recv, id);
+  }
+
   /// Diagnostic: (parked send waiters, parked recv waiters).
   #[inline]
   pub(crate) fn debug_waiters(&self) -> (usize, usize) {
@@ -498,15 +503,28 @@ impl<T> Shared<T> {
     id
   }
 
-  /// Removes a registration (cancellation / success / timeout cleanup).
-  pub(crate) fn unregister(&self, role: Role, id: u64) {
+  /// Removes a registration (success / timeout cleanup). Returns `false` when the
+  /// registration was no longer queued, i.e. a notifier had already dequeued it.
+  pub(crate) fn unregister(&self, role: Role, id: u64) -> bool {
     let mut g = self.parkers.lock();
     let (slab, count) = match role {
       Role::Send => (&mut g.send, &self.send_waiters),
       Role::Recv => (&mut g.recv, &self.recv_waiters),
     };
-    if slab.remove(id) {
+    let removed = slab.remove(id);
+    if removed {
       count.store(slab.len(), Ordering::Relaxed);
+    }
+    removed
+  }
+
+  /// Leaves the waiter set because the wait is abandoned (future dropped, timed
+  /// out). If a notifier had already dequeued this waiter, the single wake for
+  /// one freed unit went to a waiter that will not act on it: pass it on to the
+  /// next parked waiter of the same role so the unit is not stranded.
+  pub(crate) fn cancel_wait(&self, role: Role, id: u64) {
+    if !self.unregister(role, id) {
+      self.wake_one(role);
     }
   }
 
